@@ -255,6 +255,33 @@ static bool check_case(G& grid, int kind, double p, const std::vector<double>& e
         for (std::size_t i = 0; i < n; ++i)
             if ((masked(i) || is_base(i)) && !(rcnt(i) == 1 && rec(i, 0) == i)) { f = { "C01", "base-level or masked node drains somewhere" }; return false; }
     }
+    // ---- C02 filling: never below the input, terminals bit-identical, filled level == minimax spill level (+ tiny margin)
+    if (resolved && want("C02"))
+    {
+        const double INF = std::numeric_limits<double>::infinity();
+        std::vector<double> level(n, INF);
+        std::vector<char> done(n, 0);
+        for (auto b0 : bl) if (!masked(b0)) level[b0] = elev_in[b0];
+        for (std::size_t it = 0; it < n; ++it)
+        {
+            std::size_t best = n;
+            for (std::size_t i = 0; i < n; ++i) if (!done[i] && !masked(i) && level[i] < INF && (best == n || level[i] < level[best])) best = i;
+            if (best == n) break;
+            done[best] = 1;
+            grid.neighbors(best, nb);
+            for (auto& k : nb)
+                if (!masked(k.idx) && !done[k.idx] && !is_base(k.idx)) level[k.idx] = std::min(level[k.idx], std::max(level[best], elev_in[k.idx]));
+        }
+        for (std::size_t i = 0; i < n; ++i)
+        {
+            if (masked(i) || is_base(i)) { if (ev(i) != elev_in[i]) { f = { "C02", "base-level or masked node " + std::to_string(i) + " modified" }; return false; } continue; }
+            if (ev(i) < elev_in[i]) { f = { "C02", "returned elevation below the input at node " + std::to_string(i) }; return false; }
+            if (level[i] == INF) continue;   // not connected to a base level: outside the property's domain
+            double margin = 1e-9 * (1.0 + std::fabs(level[i]));
+            if (ev(i) < level[i] || ev(i) > level[i] + margin)
+            { f = { "C02", "node " + std::to_string(i) + " returned " + std::to_string(ev(i)) + " but its spill level is " + std::to_string(level[i]) }; return false; }
+        }
+    }
     // ---- C19 basins
     if ((kind == 0 || kind == 1 || kind == 3 || kind >= 5) && want("C19"))
     {
